@@ -20,6 +20,8 @@ use serde_json::{json, Value};
 
 #[path = "c08_world.rs"]
 mod world;
+#[path = "c08_corpus.rs"]
+mod corpus;
 
 pub type Slice<'a> = gimli::EndianSlice<'a, gimli::RunTimeEndian>;
 
@@ -27,7 +29,7 @@ pub fn info() -> PropInfo {
     PropInfo {
         id: "C08",
         level: "exploration",
-        rule: "Seven streams. `enum`: every byte string of length <= 4 over a 14-symbol alphabet read as a list of every flavour (invariant + differential decode, see `hostile`). `table`: for every encoding (2 byte orders x Dwarf32/64 x versions 2-5 x address sizes 1/2/4/8) and every entry kind of its list flavours (legacy .debug_ranges/.debug_loc pairs alone and after a base-selection entry; every DW_RLE_* / DW_LLE_* kind, index kinds through a .debug_addr with a non-zero addr_base, offset pairs also after base_address / base_addressx; the GNU .debug_loc.dwo flavour for versions 2-4) x 8 unit base addresses (0, 1, 0x10, mid, max-0x10, max-2, max-1, max) x all 49 operand pairs over {0,1,2,mid,max-2,max-1,max} (lengths additionally max+1 and 2^64-1): one single-entry list per case, read raw and cooked. `rand`: seeded sections with 1-4 lists of 0-30 entries (boundary addresses, wrap-around sums, empty/inverted/tombstone ranges, out-of-table indices, padded ULEB128 operands, expressions of 0-330 bytes, junk / foreign tables in front, unterminated last list), read through raw_ranges/ranges, raw_locations/locations(+_dwo), Iterator impls and next_raw+convert_raw, plus get_offset for every table slot. `offsets`: get_offset and DebugAddr::get_address over enumerated (base, index) pairs incl. the last slot, one past it and overflowing products. `die`: every combination of DW_AT_low_pc form (absent/addr/addrx) x DW_AT_high_pc form (absent/addr/addrx/data1/2/4/8/udata/sdata/negative sdata) x DW_AT_ranges form (absent/sec_offset/rnglistx/other) x 3 attribute orders x 64 encodings through die_ranges and unit_ranges. `unit`: seeded hand-assembled units (one in five with one of .debug_ranges/.debug_rnglists, .debug_loc/.debug_loclists, .debug_addr damaged by a single mutation after generation; the model reads the same bytes) in main files, .dwo files (file_type set directly) and skeleton+split pairs (make_dwo, copy_relocated_attributes), with DW_AT_addr_base/GNU_addr_base, rnglists_base/GNU_ranges_base, loclists_base present or defaulted, list attributes in sec_offset (data4/data8 for versions 2-3), rnglistx and loclistx forms on the root and on children; Unit fields, attr_ranges_offset, attr_ranges, ranges, raw_ranges, die_ranges, unit_ranges, attr_locations_offset, attr_locations, locations, raw_locations and the UnitRef twins are compared with the model. `hostile`: random bytes and single mutations (truncation, byte substitution, integer injection, field-map driven) of valid sections through all list iterators at several offsets: every yielded range must be non-empty and start below 2^(8*size)-2, and the entries must equal the model's decode of the same bytes up to the first undecodable entry. A case is non-trivial when it holds at least one list entry (table/rand/unit/hostile), one in-range lookup (offsets) or one range-bearing attribute (die); table/die/offsets cases are distinct by construction, the others by a digest of their sections.",
+        rule: "Seven streams. `enum`: every byte string of length <= 4 over a 14-symbol alphabet read as a list of every flavour (invariant + differential decode, see `hostile`). `table`: for every encoding (2 byte orders x Dwarf32/64 x versions 2-5 x address sizes 1/2/4/8) and every entry kind of its list flavours (legacy .debug_ranges/.debug_loc pairs alone and after a base-selection entry; every DW_RLE_* / DW_LLE_* kind, index kinds through a .debug_addr with a non-zero addr_base, offset pairs also after base_address / base_addressx; the GNU .debug_loc.dwo flavour for versions 2-4) x 8 unit base addresses (0, 1, 0x10, mid, max-0x10, max-2, max-1, max) x all 49 operand pairs over {0,1,2,mid,max-2,max-1,max} (lengths additionally max+1 and 2^64-1): one single-entry list per case, read raw and cooked. `rand`: seeded sections with 1-4 lists of 0-30 entries (boundary addresses, wrap-around sums, empty/inverted/tombstone ranges, out-of-table indices, padded ULEB128 operands, expressions of 0-330 bytes, junk / foreign tables in front, unterminated last list), read through raw_ranges/ranges, raw_locations/locations(+_dwo), Iterator impls and next_raw+convert_raw, plus get_offset for every table slot. `offsets`: get_offset and DebugAddr::get_address over enumerated (base, index) pairs incl. the last slot, one past it and overflowing products. `die`: every combination of DW_AT_low_pc form (absent/addr/addrx) x DW_AT_high_pc form (absent/addr/addrx/data1/2/4/8/udata/sdata/negative sdata) x DW_AT_ranges form (absent/sec_offset/rnglistx/other) x 3 attribute orders x 64 encodings through die_ranges and unit_ranges. `unit`: seeded hand-assembled units (one in five with one of .debug_ranges/.debug_rnglists, .debug_loc/.debug_loclists, .debug_addr damaged by a single mutation after generation; the model reads the same bytes) in main files, .dwo files (file_type set directly) and skeleton+split pairs (make_dwo, copy_relocated_attributes), with DW_AT_addr_base/GNU_addr_base, rnglists_base/GNU_ranges_base, loclists_base present or defaulted, list attributes in sec_offset (data4/data8 for versions 2-3), rnglistx and loclistx forms on the root and on children; Unit fields, attr_ranges_offset, attr_ranges, ranges, raw_ranges, die_ranges, unit_ranges, attr_locations_offset, attr_locations, locations, raw_locations and the UnitRef twins are compared with the model. `hostile`: random bytes and single mutations (truncation, byte substitution, integer injection, field-map driven) of valid sections through all list iterators at several offsets: every yielded range must be non-empty and start below 2^(8*size)-2, and the entries must equal the model's decode of the same bytes up to the first undecodable entry. A case is non-trivial when it holds at least one list entry (table/rand/unit/hostile), one in-range lookup (offsets) or one range-bearing attribute (die); table/die/offsets cases are distinct by construction, the others by a digest of their sections. Corpus complement (stream `corpus`, props/c08_corpus.rs): three small C/C++ sources are compiled at check time (quick: gcc -gdwarf-5 -O2, clang -gdwarf-5 -O2, gcc -gdwarf-3 -O2, clang -gdwarf-4 -O2 -gsplit-dwarf; thorough: {gcc 12, clang 14} x -gdwarf-{2,3,4,5} x {-O0,-O2}, gcc -gdwarf64, -fdebug-types-section, and -gsplit-dwarf objects of both compilers for versions 4 and 5); for every entry of the linked executable and of every .dwo (read through Dwarf::make_dwo + Unit::copy_relocated_attributes) Dwarf::attr_ranges of DW_AT_ranges, Dwarf::attr_locations of every location-list attribute (ranges + first operation of each expression), Dwarf::die_ranges and, for the root, Dwarf::unit_ranges are compared with llvm-dwarfdump; one evaluation per unit, an object is non-trivial when at least one list was compared, distinct by digest of its debug sections.",
         assumptions: &[
             "sums base+offset and begin+length wrap to the unit's address size (DESIGN A.7)",
             "documented filtering is part of the model: entries with begin >= 2^(8*size)-2, begin >= end, or (offset pairs) a running base >= 2^(8*size)-2 are not yielded",
@@ -38,7 +40,7 @@ pub fn info() -> PropInfo {
             "DW_LLE kinds 5-8 (default_location, base_address, start_end, start_length) inside a version <= 4 .debug_loc.dwo list are not part of the GNU extension: mismatches there are recorded as secondary.*, not judged",
             "die_ranges: DW_AT_ranges wins over low_pc/high_pc; a constant-class high_pc is an offset from the DIE's own low_pc; low_pc+offset beyond the address size but below 2^64 is not judged, beyond 2^64 must be Err; negative DW_FORM_sdata high_pc is not judged; the single [low_pc, high_pc) range is not filtered",
             "copy_relocated_attributes copies low_pc, addr_base and (version < 5) rnglists_base from the skeleton unit, as documented",
-            "corpus comparison with llvm-dwarfdump is not part of this check",
+            "corpus: llvm-dwarfdump 14 is the oracle; tool failures (compiler, dumper, unparsable text) are inconclusive; normalisations: llvm prints empty ranges (begin >= end) and gimli documents that it skips them, so they are removed from llvm's lists; in .dwo objects llvm cannot resolve indexed addresses, so the raw entries it prints (DW_LLE_* lines, -v --debug-rnglists of the .dwo, --debug-ranges of the executable at DW_AT_GNU_ranges_base + offset for version 4) are resolved by the harness against the executable's .debug_addr with the table base (DW_AT_addr_base / DW_AT_GNU_addr_base) and unit base address (DW_AT_low_pc) llvm prints for the skeleton unit with the same DWO id, sums wrapping at 64 bits; expressions are compared by the name of their first operation only (gimli's constant-name table maps the opcode to llvm's spelling; unnamed opcodes are unjudged); die_ranges is expected to be the DW_AT_ranges list if present, else the single [low_pc, high_pc) computed from the attribute values llvm prints (high_pc of constant class added to low_pc), else empty; gcc's DW_LLE_GNU_view_pair entries are avoided with -gno-variable-location-views in the version 4 split configurations",
         ],
         exhaustive_subspaces: &[
             "single-entry lists: 64 encodings x every entry kind of each flavour (incl. base+pair, basex+pair) x 8 unit bases x 49 (56 for lengths) operand pairs (stream `table`)",
@@ -65,6 +67,9 @@ pub fn info() -> PropInfo {
             "die.high.addr", "die.high.addrx", "die.high.data1", "die.high.data2", "die.high.data4", "die.high.data8", "die.high.udata", "die.high.sdata", "die.high.sdata_neg", "die.high.absent",
             "die.low.addr", "die.low.addrx", "die.low.absent", "die.ranges.sec_offset", "die.ranges.rnglistx", "die.ranges.other", "die.ranges.absent",
             "hostile.random", "hostile.mutated", "hostile.field", "hostile.c01seed", "hostile.ranges_checked", "hostile.end.truncated", "hostile.end.unknown", "hostile.end.clean", "hostile.differential",
+            "corpus.object", "corpus.object.dwo", "corpus.ranges.compared", "corpus.ranges.v3", "corpus.ranges.v5", "corpus.ranges.v4.dwo", "corpus.ranges.rnglistx",
+            "corpus.locs.compared", "corpus.locs.v3", "corpus.locs.v5", "corpus.locs.v4.dwo", "corpus.locs.loclistx", "corpus.locs.first_op",
+            "corpus.die_ranges.compared", "corpus.die_ranges.low_high", "corpus.unit_ranges.compared",
         ],
         run,
     }
@@ -1051,4 +1056,5 @@ pub fn run(ctx: &mut Ctx) {
     world::stream_die(ctx);
     world::stream_unit(ctx);
     stream_hostile(ctx);
+    corpus::run(ctx);
 }
